@@ -274,6 +274,11 @@ class Interp:
         if isinstance(fn, BoundMethod):
             return self.call(fn.fn, [fn.selfval] + list(args), kwargs, where)
         if isinstance(fn, Builtin):
+            for i, a in enumerate(args):
+                if isinstance(a, Phi) and fn.name not in ("isinstance", "getattr", "hasattr", "setattr"):
+                    r1 = self.call(fn, list(args[:i]) + [a.a] + list(args[i + 1:]), kwargs)
+                    r2 = self.call(fn, list(args[:i]) + [a.b] + list(args[i + 1:]), kwargs)
+                    return merge(a.cond, r1, r2)
             return fn.fn(*args, **kwargs)
         if isinstance(fn, ClassVal):
             return self.instantiate(fn, args, kwargs)
